@@ -78,6 +78,9 @@ pub fn prop(tier: Tier, seed: u64) -> Prop {
         decode(idx, &d1, &mut d);
         let ((n_in, n_out), f, adaptive) = (pr[d[0]], NONNEG[d[1]], d[2] == 0);
         ctx.sample(|| json!({"n_in": n_in, "n_out": n_out, "filter": format!("{:?}", f), "adaptive": adaptive, "crops": "CROP1(n_in)"}));
+        if ctx.describe_only {
+            return;
+        }
         for crop in model_crops(n_in) {
             if axis_is_identity(crop, n_out) {
                 continue;
@@ -110,7 +113,7 @@ pub fn prop(tier: Tier, seed: u64) -> Prop {
             ctx.class(mix(mix(d[1] as u64, d[2] as u64), mix(dump.precision16 as u64, (dump.window_size % 16) as u64)));
             ctx.outcome(mix(dump.precision16 as u64, dump.chunks16.first().map(|c| c.1.iter().map(|k| *k as u64).sum::<u64>()).unwrap_or(0)));
         }
-    }));
+    }).isolated());
 
     // ---- (b) direct 1-D, both orientations
     let n: u32 = tier.pick(12, 32);
@@ -127,6 +130,9 @@ pub fn prop(tier: Tier, seed: u64) -> Prop {
         }
         let (crop, alg) = (crops[d[2]], a2[d[3]]);
         ctx.sample(|| json!({"n_in": n_in, "n_out": n_out, "crop": [crop.start, crop.len], "alg": format!("{:?}", alg)}));
+        if ctx.describe_only {
+            return;
+        }
         let f = alg.filter().unwrap();
         if !axis_is_identity(crop, n_out) {
             let dump = dump_for(n_in, crop, n_out, f, adaptive_of(alg));
@@ -202,7 +208,7 @@ pub fn prop(tier: Tier, seed: u64) -> Prop {
             }
         }
         ctx.nontrivial += 1;
-    }));
+    }).isolated());
 
     // ---- (c) direct 2-D incl. SuperSampling
     let m: u32 = tier.pick(4, 6);
@@ -229,6 +235,9 @@ pub fn prop(tier: Tier, seed: u64) -> Prop {
         let (sw, sh, dw, dh) = s3[d[0]];
         let alg = a3[d[1]];
         ctx.sample(|| json!({"src": [sw, sh], "dst": [dw, dh], "alg": format!("{:?}", alg)}));
+        if ctx.describe_only {
+            return;
+        }
         for pt in ALL_PT {
             let ck = pt.ck();
             for (ri, (lo, hi)) in ranges(ck).into_iter().enumerate() {
@@ -274,7 +283,7 @@ pub fn prop(tier: Tier, seed: u64) -> Prop {
             ctx.class(mix(pt.idx() as u64 + 800, mix(d[0] as u64 % 64, d[1] as u64)));
         }
         ctx.nontrivial += 1;
-    }));
+    }).isolated());
 
     p.rule = "(a) model: for Box/Bilinear/Hamming/Gaussian and every geometry of the model space, every i16/i32 coefficient and f64 weight read through the hook is >= 0 and the integer weights sum to 2^p closely enough that no constant overshoots: together with the E2 conformance replays (C02) this decides range and monotonicity for ALL contents of 8/16-bit formats; (b) direct 1-D n_in,n_out up to N x crops x 8 algorithms x 13 types x back-ends x 2 orientations on range-limited rows (ranges touching 0, max, negative i32) and ordered pairs (B = A with one position raised at stepped positions, B = max(A, lcg)); (c) 2-D shapes incl. SuperSampling".into();
     p.bounds = json!({"N": n, "M": m, "model_pairs": pairs.len()});
